@@ -111,7 +111,10 @@ def judgeGrain (case out : String) : String :=
       if tr.contains "cap" then "ok unfinished" else judgeBy "Add:len" progs res tr
     | _, _ => "bad unparsable " ++ out
 
-def judge (case out : String) : String :=
+/-- the final digest reports a timer that was pooled twice -/
+def timerDup (out : String) : Bool := (out.splitOn "timers=dup").length > 1
+
+def judgeMain (case out : String) : String :=
   if case.startsWith "gask" then judgeGrain case out else
   if out.startsWith "HANG-skipped" then "ok skipped"
   else if out.startsWith "HANG" then "bad hang an Ask never returned: a logical thread blocked outside every schedule point"
@@ -128,5 +131,9 @@ def judge (case out : String) : String :=
       if tr.contains "cap" then "ok unfinished"
       else verdict progs res (feedAll fixed progs res { ts := progs.map fun _ => {} } 0 tr)
     | _, _ => "bad unparsable " ++ out
+
+def judge (case out : String) : String :=
+  if timerDup out then "bad timer the same *time.Timer was put into the Ask timer pool twice: two later Asks share one deadline"
+  else judgeMain case out
 
 end GoaktVerif.Spec.C15
